@@ -37,9 +37,9 @@ NOT_DECIDED = [
     "group means: non-emptiness of every returned group is part of the assumed groupby contract",
     "default wave-vector set: the float test `modf(sqrt(k))[0] == 0` is taken as 'k is a perfect square' (exact for k < 2**52; assumed, see "
     "TRUSTED); onlypositive='z' with ndim=2 and non-bool/str options are not specified by the documentation and not checked",
-    "sum rule N S = sum_a N_a S_aa + 2 sum_{a<b} sqrt(N_a N_b) S_ab on the ROUNDED, |q|-averaged numbers of the returned table: it holds "
-    "exactly (over the reals) for the unrounded per-vector values the code computes (the values written, formatted %.6f, to _qvectors.csv; clauses sum-rule:*), "
-    "on the returned table only up to the 1e-6 rounding of every per-vector value (error bound not chained through the symbolic group mean)",
+    "sum rule as an exact equality on the returned table: false in general (every per-vector value is rounded to 1e-6 before the |q|-average); "
+    "proved instead: exact for the unrounded per-vector values (sum-rule:*), and |N S - sum_a N_a S_aa - 2 sum_{a<b} sqrt(N_a N_b) S_ab| <= "
+    "(N + sum_{a<b} sqrt(N_a N_b)) 1e-6 on every row of the returned table (sum-rule:rounded:*)",
     "AssertionError of sq.__init__ when particle number or box change between frames (the symbolic trajectory has them constant)",
 ]
 TRUSTED = [
@@ -219,6 +219,11 @@ class Method(Unit):
     SUMRULE = ["sum-rule:rho=sum_a-rho_a:induction-step(particles)", "sum-rule:per-frame-identity", "sum-rule:raw:induction-step(frames)",
                "sum-rule:per-vector-values(unrounded)"]
 
+    SUMRULE_ROUNDED = ["sum-rule:rounded:per-vector-defect<=bound", "sum-rule:rounded:group:induction-step(vectors)",
+                       "sum-rule:rounded:group:linearity:unfold", "sum-rule:rounded:group:linearity:step(member)",
+                       "sum-rule:rounded:group:linearity:step(non-member)", "sum-rule:rounded:returned-table:mean-of-combination",
+                       "sum-rule:rounded:returned-table:|N.S-sum_a.N_a.S_aa-2.sum_ab.sqrt(N_a.N_b).S_ab|<=(N+sum_ab.sqrt(N_a.N_b)).1e-6"]
+
     def clause_names(self, case):
         names = ["columns", "q:key=round6|2pi n/L|", "q:returned=key", "file=returned", "qvectors-file=per-vector-values"]
         for name, ab in columns(self.K):
@@ -227,7 +232,7 @@ class Method(Unit):
                 names += [f"{name}:per-vector-value>=0", f"{name}:raw>=0:induction-step(frames)", f"{name}:returned>=0:induction-step(vectors)",
                           f"{name}:returned>=0"]
         if self.K >= 2:
-            names += self.SUMRULE
+            names += self.SUMRULE + self.SUMRULE_ROUNDED
         return names
 
     def ensures(self, ctx, case, inp, out):
@@ -250,7 +255,7 @@ class Method(Unit):
         ing = sv.and_(sv.cmp(">=", g, 0), sv.cmp("<", g, G))
         yield "q:key=round6|2pi n/L|", sv.implies(inm, sv.cmp("==", keys((m,)), sv.round_dec(sp.qnorm(m), 6))), {"ring_only": True}
         yield "q:returned=key", sv.implies(ing, sv.cmp("==", c["q"].get((g,)), Kf(g))), {"ring_only": True}
-        pervec = {}
+        pervec, nums, den_g = {}, {}, None
         for name, ab in cols:
             rv = gb["values"][name]((m,))
             t = sv.zr(rv)
@@ -278,13 +283,15 @@ class Method(Unit):
             num = Sum(0, M, lambda t_: sv.ite(sv.cmp("==", keys((t_,)), kg), gb["values"][name]((t_,)), 0))
             den = Sum(0, M, lambda t_: sv.ite(sv.cmp("==", keys((t_,)), kg), 1, 0))
             yield f"{name}:group-mean", sv.implies(ing, sv.cmp("==", c[name].get((g,)), sv.div(num, den))), {"ring_only": True}
+            nums[name], den_g = num, den
             if ab is None or ab[0] == ab[1]:
                 yield from self.sign_goals(inp, name, ab, gb, kg, num, den, c[name].get((g,)), ing, inm)
         if K >= 2:
             if all(nm in pervec for nm, _ in cols):
                 yield from self.sumrule_goals(inp, cols, pervec, inm)
+                yield from self.sumrule_rounded_goals(inp, cols, pervec, gb, c, Kf(g), ing, inm, nums, den_g)
             else:
-                for nm in self.SUMRULE:
+                for nm in self.SUMRULE + self.SUMRULE_ROUNDED:
                     yield nm, False
         # files
         writes = [e for e in out.state.trace if e[0] == "to_csv"]
@@ -367,11 +374,84 @@ class Method(Unit):
         yield self.SUMRULE[2], sv.implies(sv.and_(inm, sv.cmp(">=", kf, 0), sv.cmp("<", kf, T), sv.cmp("==", D(kf), 0), h2), sv.cmp("==", D(sv.add(kf, 1)), 0)), \
             {"solver_opts": {"ext": False}, "abstract_nl": True}
         name_of = {ab: nm for nm, ab in cols}
-        vS, rawS = pervec[name_of[None]]
-        lhs = sv.mul(N, vS)
-        rhs = _sum([sv.mul(sv.mul(w(ab), sp.norm(ab)), pervec[name_of[ab]][0]) for ab in sp_ab])
+        rawS = pervec[name_of[None]][1]
         rw = [(rawS, _sum([sv.mul(w(ab), pervec[name_of[ab]][1]) for ab in sp_ab]))]
-        yield self.SUMRULE[3], sv.implies(inm, sv.cmp("==", lhs, rhs)), {"ring_only": True, "rewrites": rw}
+        yield self.SUMRULE[3], sv.implies(inm, sv.cmp("==", self._comb(inp, lambda X: pervec[name_of[X]][0]), 0)), {"ring_only": True, "rewrites": rw}
+
+    def _coef(self, inp):
+        """columns X in the order total, diagonal, off-diagonal with sign and coefficient: + N, - N_a, - 2 sqrt(N_a N_b)"""
+        sp, K = inp["sp"], self.K
+        out = [(None, 1, inp["N"])]
+        out += [((a, a), -1, inp["Na"][a - 1]) for a in range(1, K + 1)]
+        out += [((a, b), -1, sv.mul(2, sp.norm((a, b)))) for a in range(1, K + 1) for b in range(a + 1, K + 1)]
+        return out
+
+    def _comb(self, inp, f):
+        """N f(S) - sum_a N_a f(S_aa) - 2 sum_{a<b} sqrt(N_a N_b) f(S_ab)"""
+        return _sum([sv.mul(sg, sv.mul(cf, f(X))) for X, sg, cf in self._coef(inp)])
+
+    def sumrule_rounded_goals(self, inp, cols, pervec, gb, c, kg, ing, inm, nums, den):
+        """the sum rule ON THE RETURNED TABLE, up to the rounding of the per-vector values: with eps = 1/2 1e-6,
+        B = (N + sum_a N_a + 2 sum_{a<b} sqrt(N_a N_b)) eps = (N + sum_{a<b} sqrt(N_a N_b)) 1e-6  and
+        Delta(t) = N rv_S(t) - sum_a N_a rv_aa(t) - 2 sum_{a<b} sqrt(N_a N_b) rv_ab(t)  (rv = the rounded per-vector values):
+        (R1) |Delta(m)| <= B at every vector (exact sum rule of the unrounded values, |rv - v| <= eps, scaled by the coefficients >= 0);
+        (R2) U_k = sum_{t<k} [key_t = key_g] Delta(t),  BD_k = sum_{t<k} [key_t = key_g] B:  |U_k| <= BD_k -> |U_{k+1}| <= BD_{k+1};
+        (R3) U_k = N num_S,k - sum_a N_a num_aa,k - ...  and BD_k = B den_k  (linearity of the group sums): unfold + ring steps for a member /
+             a non-member of the group;
+        (R4) the returned means c_X = num_X / den:  N c_S - ... = (N num_S - ...)/den (ring), hence |N c_S - ...| <= B for den >= 1.
+        Induction principle over k trusted; den >= 1 is part of the assumed groupby contract."""
+        from fractions import Fraction
+        sp, m, M, kv = inp["sp"], inp["m"], inp["M"], inp["kv"]
+        names = self.SUMRULE_ROUNDED
+        name_of = {ab: nm for nm, ab in cols}
+        coef = self._coef(inp)
+        EPS = Fraction(1, 2000000)
+        B = sv.mul(_sum([cf for _, _, cf in coef]), EPS)
+        keys = gb["keys"]
+        rv = lambda X, t: gb["values"][name_of[X]]((t,))
+        v = lambda X: pervec[name_of[X]][0]
+        delta = lambda t: self._comb(inp, lambda X: rv(X, t))
+        absle = lambda x, y: sv.and_(sv.cmp("<=", x, y), sv.cmp("<=", sv.neg(y), x))
+        so = {"solver_opts": {"ext": False}, "abstract_nl": True}
+        # (R1)
+        exact = sv.cmp("==", self._comb(inp, v), 0)                       # clause sum-rule:per-vector-values(unrounded)
+        scaled = [sv.implies(sv.and_(sv.cmp(">=", cf, 0), absle(sv.sub(rv(X, m), v(X)), EPS)),
+                             absle(sv.sub(sv.mul(cf, rv(X, m)), sv.mul(cf, v(X))), sv.mul(cf, EPS))) for X, _, cf in coef]    # lemma:scaled-rounding-error
+        yield names[0], sv.implies(inm, absle(delta(m), B)), dict(so, assume=[sv.implies(inm, exact)] + scaled)
+        # (R2)
+        member = lambda t: sv.cmp("==", keys((t,)), kg)
+        U = lambda k: Sum(0, k, lambda t_: sv.ite(member(t_), delta(t_), 0))
+        BD = lambda k: Sum(0, k, lambda t_: sv.ite(member(t_), B, 0))
+        numk = lambda X, k: Sum(0, k, lambda t_: sv.ite(member(t_), rv(X, t_), 0))
+        denk = lambda k: Sum(0, k, lambda t_: sv.ite(member(t_), 1, 0))
+        ink = sv.and_(ing, sv.cmp(">=", kv, 0), sv.cmp("<", kv, M))
+        k1 = sv.add(kv, 1)
+        yield names[1], sv.implies(sv.and_(ink, absle(U(kv), BD(kv)), absle(delta(kv), B)), absle(U(k1), BD(k1))), so
+        # (R3)
+        xs = [X for X, _, _ in coef]
+        grow = [sv.cmp("==", numk(X, k1), sv.add(numk(X, kv), rv(X, kv))) for X in xs] + \
+               [sv.cmp("==", denk(k1), sv.add(denk(kv), 1)), sv.cmp("==", U(k1), sv.add(U(kv), delta(kv))), sv.cmp("==", BD(k1), sv.add(BD(kv), B))]
+        stay = [sv.cmp("==", numk(X, k1), numk(X, kv)) for X in xs] + \
+               [sv.cmp("==", denk(k1), denk(kv)), sv.cmp("==", U(k1), U(kv)), sv.cmp("==", BD(k1), BD(kv))]
+        yield names[2], sv.implies(ink, sv.and_(sv.implies(member(kv), sv.and_(*grow)), sv.implies(sv.not_(member(kv)), sv.and_(*stay)))), so
+        Lk = lambda k: sv.and_(sv.cmp("==", U(k), self._comb(inp, lambda X: numk(X, k))), sv.cmp("==", BD(k), sv.mul(B, denk(k))))
+        ih = [(U(kv), self._comb(inp, lambda X: numk(X, kv))), (BD(kv), sv.mul(B, denk(kv)))]
+        rw_grow = [(numk(X, k1), sv.add(numk(X, kv), rv(X, kv))) for X in xs] + \
+                  [(denk(k1), sv.add(denk(kv), 1)), (U(k1), sv.add(U(kv), delta(kv))), (BD(k1), sv.add(BD(kv), B))]
+        rw_stay = [(numk(X, k1), numk(X, kv)) for X in xs] + [(denk(k1), denk(kv)), (U(k1), U(kv)), (BD(k1), BD(kv))]
+        yield names[3], Lk(k1), {"ring_only": True, "rewrites": rw_grow + ih}
+        yield names[4], Lk(k1), {"ring_only": True, "rewrites": rw_stay + ih}
+        # (R4)
+        g = inp["g"]
+        ret = lambda X: c[name_of[X]].get((g,))
+        u = self._comb(inp, lambda X: nums[name_of[X]])
+        mean_eq = sv.cmp("==", self._comb(inp, ret), sv.div(u, den))
+        yield names[5], sv.implies(ing, mean_eq), {"ring_only": True}
+        UM, BDM = Sum(0, M, lambda t_: sv.ite(member(t_), delta(t_), 0)), Sum(0, M, lambda t_: sv.ite(member(t_), B, 0))
+        hyps = [absle(UM, BDM), sv.cmp("==", UM, u), sv.cmp("==", BDM, sv.mul(B, den)), sv.cmp(">=", den, 1)]      # (R2), (R3) at k = M; groupby
+        quot = sv.implies(sv.and_(absle(u, sv.mul(B, den)), sv.cmp(">=", den, 1)), absle(sv.div(u, den), B))          # lemma:|u|<=B.d,d>=1=>|u/d|<=B
+        gq, _ = sv.generalize(sv.implies(sv.and_(ing, mean_eq, quot, *hyps), absle(self._comb(inp, ret), B)), [sv.div(u, den), u, den, UM, BDM, B], "q")
+        yield names[6], gq, so
 
     def modes_goals(self, inp, ab, raw):
         """raw (the Σ over frames accumulated by the code, at vector m) == sum_s Re[rho_a conj rho_b], in three small steps:
@@ -1393,6 +1473,11 @@ def lemmas():
     out.append(("lemma:sum-of-non-negative-terms:induction-step", sv.implies(sv.and_(S >= 0, f >= 0), sv.cmp(">=", sv.add(S, f), 0))))
     raw, T, Na = sv.real("raw"), sv.integer("T"), sv.integer("N_a")
     out.append(("lemma:raw>=0=>S_aa>=0", sv.implies(sv.and_(raw >= 0, T >= 1, Na >= 1), sv.cmp(">=", sv.mul(sv.div(raw, sv.mul(T, Na)), sv.mul(T, Na)), 0))))
+    cc, rr, vv, ee = sv.real("c"), sv.real("r"), sv.real("v"), sv.real("e")
+    absle = lambda x_, y_: sv.and_(sv.cmp("<=", x_, y_), sv.cmp("<=", sv.neg(y_), x_))
+    out.append(("lemma:scaled-rounding-error", sv.implies(sv.and_(cc >= 0, absle(sv.sub(rr, vv), ee)), absle(sv.sub(sv.mul(cc, rr), sv.mul(cc, vv)), sv.mul(cc, ee)))))
+    uu, bb, dd = sv.real("u"), sv.real("B"), sv.real("d")
+    out.append(("lemma:|u|<=B.d,d>=1=>|u/d|<=B", sv.implies(sv.and_(absle(uu, sv.mul(bb, dd)), dd >= 1), absle(sv.div(uu, dd), bb))))
     for K in (2, 3, 4, 5):
         t = sv.integer("type_i")
         e = sv.real("e_i")
@@ -1434,13 +1519,15 @@ MANIFEST = {
             "rho = sum_a rho_a and of 'sum of non-negative terms'; on the real terms of every method: diagonal and total columns of the "
             "RETURNED table are >= 0 (induction steps over frames and over the vectors of a group, mean of non-negative values), and the sum "
             "rule N S = sum_a N_a S_aa + 2 sum_{a<b} sqrt(N_a N_b) S_ab holds exactly for the unrounded per-vector values (induction steps "
-            "over particles and frames, ring identities with the code's normalisations).",
+            "over particles and frames, ring identities with the code's normalisations) and within (N + sum_{a<b} sqrt(N_a N_b)) 1e-6 on every "
+            "row of the returned (rounded, |q|-averaged) table (per-vector defect bound, induction step over the vectors of a group, linearity "
+            "of the group sums, mean of the combination).",
     "note": "floats as reals (A1); assumed: pandas frame/round/groupby-mean/to_csv contracts, np.unique (relational), np.linalg.norm, "
             "exp(-ix) = cos x - i sin x, math.modf(sqrt(k))[0] == 0 iff k is a perfect square; the methods take the invariant of "
             "sq.__init__ as precondition with type ids 1..K; choosewavevector: documented range = half-open [-floor(n/2), floor(n/2)) per "
             "axis; assumed: the ghost lexicographic enumeration of the documented set with rank = count of preceding members (d-dimensional "
             "SEL/RANK), the a[mask] selection contract, modf/sqrt as the perfect-square test, induction over an axis for the count bound; "
-            "no bounded stand-in is left; the sum rule is proved for the unrounded per-vector values, on the rounded / averaged table it "
-            "holds only up to the rounding (bound not chained); induction principles trusted; the raising behaviour of __init__ for varying "
+            "no bounded stand-in is left; the sum rule is exact for the unrounded per-vector values, on the rounded / averaged table it is "
+            "proved up to the stated rounding bound; induction principles and den >= 1 of groupby trusted; the raising behaviour of __init__ for varying "
             "particle number / box is not under contract",
 }
